@@ -120,11 +120,19 @@ def run(ctx):
             parts[f[1]] = int(f[2])
         elif f[0] == "EVALS":
             ctx.cov["evaluations"] += int(f[1])
-            ctx.cov["distinct_nontrivial"] += int(f[1])
             ctx.notes["search_evaluations"] = int(f[1])
+        elif f[0] == "DISTINCT":
+            ctx.cov["distinct_nontrivial"] += int(f[1])
+            ctx.notes["search_distinct_inputs"] = int(f[1])
     ctx.notes["search_parts_cumulative"] = parts
+    # one report per (site, class) signature: the first witness, with the number of failing inputs
+    by_sig = {}
     for f in fails:
-        ctx.failing_input(f[1], f[2], f[3], f[4])
+        by_sig.setdefault((f[1], f[2]), []).append(f)
+    for (site, klass), fl in sorted(by_sig.items()):
+        ctx.failing_input(site, klass, fl[0][3], fl[0][4], extra={"failing_inputs_with_this_signature": len(fl),
+                                                                   "more_witnesses": [x[3] for x in fl[1:6]]})
+    ctx.notes["failing_inputs_by_signature"] = {"%s/%s" % k: len(v) for k, v in by_sig.items()}
     ctx.log("search: %d evaluations, %d failing inputs" % (ctx.notes.get("search_evaluations", 0), len(fails)))
     # exhaustive: the finite domain of the property was enumerated completely on both sides
     ctx.notes["exhaustive"] = True
